@@ -1,4 +1,88 @@
-import TR.Model.Circuit
+import TR.Lemmas.CircuitState
+/-!
+# C09 — a half-open breaker lets through at most `permitted_calls_in_half_open` trial calls
+
+Quantification: every configuration (both window types, every `permitted`), every list of
+operations (any number of callers arriving while half-open, all latencies and outcomes of the
+trial calls, cancellations and panics of trial futures, all poll orders).
+-/
 namespace TR.Props.C09
-theorem placeholder : 1 = 1 := rfl
+open TR TR.Circuit
+
+/-- In every reachable half-open state: the inner calls started since the breaker became
+half-open are exactly the admitted trials still accounted for plus the trials whose future
+was cancelled before an outcome was recorded, and the accounted trials never exceed
+`permitted` (`max permitted 1`: the call that half-opens the breaker is always admitted). -/
+theorem trials_accounting (cfg : Cfg) (ops : List Op) (h : (run cfg ops).circ.st = .halfOpen) :
+    callsSince (run cfg ops).log = (run cfg ops).circ.hoAdmitted + (run cfg ops).circ.released ∧
+    (run cfg ops).circ.hoAdmitted ≤ max cfg.permitted 1 :=
+  ⟨(sinv_reachable cfg ops).calls h, (sinv_reachable cfg ops).circ.hoAdm h⟩
+
+/-- Trial calls that reached the inner service in the current half-open episode, not counting
+those that were cancelled, never exceed `permitted` — however many callers arrive at once. -/
+theorem trials_in_flight_bounded (cfg : Cfg) (ops : List Op) (hp : cfg.permitted ≥ 1)
+    (h : (run cfg ops).circ.st = .halfOpen) :
+    callsSince (run cfg ops).log - (run cfg ops).circ.released ≤ cfg.permitted := by
+  have := trials_accounting cfg ops h
+  omega
+
+/-- Without cancellations: at most `permitted` inner calls between entering half-open and the decision. -/
+theorem trials_bounded (cfg : Cfg) (ops : List Op) (hp : cfg.permitted ≥ 1)
+    (h : (run cfg ops).circ.st = .halfOpen) (hnc : (run cfg ops).circ.released = 0) :
+    callsSince (run cfg ops).log ≤ cfg.permitted := by
+  have := trials_accounting cfg ops h
+  omega
+
+/-- A caller arriving when all trial slots are taken is rejected in the same step (open-circuit
+error or fallback); the circuit is untouched and no inner call is made. Holds in any state. -/
+theorem excess_rejected (cfg : Cfg) (s : State) (f : Fresh)
+    (hst : s.circ.st = .halfOpen) (hfull : ¬ s.circ.hoAdmitted < cfg.permitted) :
+    pollFresh cfg s f = rejected cfg s f := by
+  have hacq := tryAcquire_acq cfg s.circ s.now
+  cases hacq with
+  | closed h => rw [hst] at h; cases h
+  | toHalf h => rw [hst] at h; cases h
+  | rejectOpen h => rw [hst] at h; cases h
+  | trial h hlt => exact absurd hlt hfull
+  | rejectHalf h hge hc hok he =>
+    unfold pollFresh; simp only
+    rw [admitStep_rej cfg s f hok hc he]; simp
+
+/-- A caller arriving while a slot is free is admitted as a trial of the current episode. -/
+theorem free_slot_admits (cfg : Cfg) (s : State) (f : Fresh)
+    (hst : s.circ.st = .halfOpen) (hfree : s.circ.hoAdmitted < cfg.permitted) :
+    (admitStep cfg s f).2 = true ∧ (admitStep cfg s f).1.circ.hoAdmitted = s.circ.hoAdmitted + 1 := by
+  have hacq := tryAcquire_acq cfg s.circ s.now
+  cases hacq with
+  | closed h => rw [hst] at h; cases h
+  | toHalf h => rw [hst] at h; cases h
+  | rejectOpen h => rw [hst] at h; cases h
+  | trial h hlt hok he hc =>
+    rw [admitStep_ok cfg s f hok]
+    exact ⟨rfl, by simp [admitted, hc]⟩
+  | rejectHalf h hge => exact absurd hfree hge
+
+/-- No wedge: in every reachable half-open state in which no trial of the current episode is
+still in flight (all completed or were dropped), a trial slot is free — the breaker cannot
+stay half-open rejecting everybody. Holds for every `permitted`, window size and duration. -/
+theorem no_wedge (cfg : Cfg) (ops : List Op) (h : (run cfg ops).circ.st = .halfOpen)
+    (hidle : trialsOf (run cfg ops).circ.episode (run cfg ops).running = 0) :
+    (run cfg ops).circ.hoAdmitted < max cfg.permitted 1 := by
+  have hs := sinv_reachable cfg ops
+  have h1 := hs.trials h
+  have h2 := hs.circ.own
+  have h3 := hs.circ.hoSucc h
+  omega
+
+/-- Non-vacuity: `permitted = 2`, four callers arrive together at a half-open breaker with slow
+trial calls: exactly two inner calls, two rejections; dropping one trial frees one slot. -/
+example :
+    let cfg : Cfg := { size := 1, minCalls := 1, waitMs := 10, permitted := 2 }
+    let pre := [Op.arrive 1 ⟨0, .err 1⟩ 0, .poll 1, .adv 10,
+                .arrive 2 ⟨50, .ok⟩ 0, .arrive 3 ⟨50, .ok⟩ 0, .arrive 4 ⟨50, .ok⟩ 0, .arrive 5 ⟨50, .ok⟩ 0,
+                .poll 2, .poll 3, .poll 4, .poll 5]
+    (run cfg pre).circ.st = .halfOpen ∧ callsSince (run cfg pre).log = 2 ∧ (run cfg pre).circ.hoAdmitted = 2 ∧
+    (run cfg (pre ++ [.drop 2])).circ.hoAdmitted = 1 ∧ (run cfg (pre ++ [.drop 2])).circ.released = 1 := by
+  decide
+
 end TR.Props.C09
